@@ -11,6 +11,9 @@ structure TCall where
   domain : Option Str
   context : Option Str
   target : Option Str
+  /-- not a message of the template: an inserted value that is not a string, a number or an `__html__` object, offered
+  to the translation function by `__convert`/`__quote` before it is converted to text (`msgid` = its string form) -/
+  offered : Bool := false
   deriving Repr, Inhabited, DecidableEq
 
 structure Frame where
@@ -283,8 +286,34 @@ def callTranslate (cfg : ECfg) (env : Env) (msgid : Str) (mapping : Option (List
   fun x =>
     let fr := env.topFrame
     let tgt : Option Str := match fr.targetLang with | .str t => some t | _ => none
-    let call : TCall := ⟨msgid, mapping, dflt, fr.domain, fr.context, tgt⟩
+    let call : TCall := { msgid := msgid, mapping := mapping, dflt := dflt, domain := fr.domain, context := fr.context, target := tgt }
     .ok (simpleTranslate cfg.tc.rx msgid mapping dflt) { x with tlog := x.tlog.push call }
+
+/-- the call an insertion of a value with string form `s` makes in frame `fr` -/
+def offerOf (fr : Frame) (s : Str) : TCall :=
+  { msgid := s, mapping := none, dflt := none, domain := fr.domain, context := fr.context,
+    target := (match fr.targetLang with | .str t => some t | _ => none), offered := true }
+
+/-- `__convert` / `__quote` on a value that is not `None`, bytes, a `str`, an `int`/`float` or an object with `__html__`:
+`translate(target, domain=…, context=…, target_language=…)` is called before the value is converted to text -/
+def offerCall (cfg : ECfg) (env : Env) (v : Val) : XM Unit :=
+  fun x =>
+    match toQIn cfg v with
+    | .ok (.other s _) => .ok () { x with tlog := x.tlog.push (offerOf env.topFrame s) }
+    | _ => .ok () x
+
+/-- `convertText` with the offer logged -/
+def convertTextX (cfg : ECfg) (env : Env) (esc : Esc) (dflt : Option Str) (v : Val) : XM (Option Str) := do
+  if esc == .emptyQ then xUnsupported "dynamic value for an unquoted/valueless static attribute (D-07b)" else
+  offerCall cfg env v
+  xLiftR (convertText cfg esc dflt v)
+
+/-- `convPart` with the offer logged: a false value under `literal_false = False` is not converted, hence not offered -/
+def convPartX (cfg : ECfg) (env : Env) (esc : Esc) (dflt : Option Str) (lf : Bool) (v : Val) : XM (Option Str) := do
+  if lf then convertTextX cfg env esc dflt v
+  else
+    let b ← xLiftR (Val.truthy cfg.tab v)
+    if b then convertTextX cfg env esc dflt v else pure none
 
 mutual
 /-- evaluate a compiled TALES expression to an object -/
@@ -338,7 +367,7 @@ def evalParts (cfg : ECfg) (al : List (Str × Val)) (env : Env) : Nat → List I
     | [.expr e tok _] => do
       xSetToken tok
       let v ← evalT cfg al env f e esc dflt
-      xLiftR (convPart cfg esc dflt lf v)
+      convPartX cfg env esc dflt lf v
     | _ => do
       let rs ← partsText cfg al env f parts esc dflt lf
       pure (some rs)
@@ -351,7 +380,7 @@ def partsText (cfg : ECfg) (al : List (Str × Val)) (env : Env) : Nat → List I
       | .expr e tok _ => do
         xSetToken tok
         let v ← evalT cfg al env f e esc dflt
-        let t ← xLiftR (convPart cfg esc dflt lf v)
+        let t ← convPartX cfg env esc dflt lf v
         pure (t.getD [])
     let b ← partsText cfg al env f rest esc dflt lf
     pure (a ++ b)
@@ -393,7 +422,7 @@ def evalPartsTranslated (cfg : ECfg) (al : List (Str × Val)) (env : Env) : List
       | .expr e tok text => do
         xSetToken tok
         let v ← evalT cfg al env 64 e esc dflt
-        let t ← xLiftR (convPart cfg esc dflt lf v)
+        let t ← convPartX cfg env esc dflt lf v
         -- a value of `None` stays in the mapping; the translation function sees `str(None)`
         pure (lit "${" ++ text ++ lit "}", [(text, t.getD (lit "None"))])
     let (b, m') ← evalPartsTranslated cfg al env rest esc dflt lf
@@ -409,14 +438,14 @@ def getCached (env : Env) (id : Nat) : XM Val :=
   | none => xUnsupported "read of a cache variable that this activation has not assigned"
 
 /-- the statements `assign_text` appends after the evaluation -/
-def substTail (cfg : ECfg) (esc : Esc) (dflt : Option Str) (literalFalse : Bool) (v : Val) : XM Val := do
+def substTail (cfg : ECfg) (env : Env) (esc : Esc) (dflt : Option Str) (literalFalse : Bool) (v : Val) : XM Val := do
   if !literalFalse then
     let b ← xLiftR (Val.truthy cfg.tab v)
     if !b then pure .none else do
-      let t ← xLiftR (convertText cfg esc dflt v)
+      let t ← convertTextX cfg env esc dflt v
       pure (match t with | some s => .str s | none => .none)
   else do
-    let t ← xLiftR (convertText cfg esc dflt v)
+    let t ← convertTextX cfg env esc dflt v
     pure (match t with | some s => .str s | none => .none)
 
 /-- evaluate an expression node to an object (`ExpressionTransform`) -/
@@ -458,7 +487,7 @@ def evalEN (cfg : ECfg) (al : List (Str × Val)) (env : Env) : Nat → EN → XM
       -- the engine of a Substitution is created without char_escape: nested `string:` parts are
       -- converted unescaped, only the outer `assign_text` escapes
       let v ← evalValue cfg al env tok .none dflt
-      substTail cfg esc dflt literalFalse v
+      substTail cfg env esc dflt literalFalse v
     | .boolean tok s dflt => do
       let v ← evalValue cfg al env tok .none dflt
       match v with
@@ -746,7 +775,7 @@ def eval (cfg : ECfg) (al : List (Str × Val)) : Nat → Node → RM Unit
             else match v' with
               | .none => pure ()
               | _ => do
-                let t ← mLiftR (convertText cfg .dq none v')
+                let t ← liftX (fun env => convertTextX cfg env .dq none v')
                 match t with
                 | some s => emit ([32] ++ name ++ [61, 34] ++ s ++ [34])
                 | none => mRaise { cls := "TypeError", msg := [] }
@@ -763,6 +792,7 @@ def eval (cfg : ECfg) (al : List (Str × Val)) : Nat → Node → RM Unit
             pure (Val.str r)
           | _ => mUnsupported "tal:content with i18n:translate=\"\" of a value that is not text"
         else pure v0)
+      liftX (fun env => offerCall cfg env v)
       let q ← mLiftR (toQIn cfg v)
       let t := if esc then quoteVal Site.content.q Site.content.qe none q else convertVal q
       match t with
